@@ -55,7 +55,7 @@ where
     expected_inspects(&c.tree, c.pulls, &mut exp_ins);
     ensure!(exp_ins.len() == b.inspects.len(), "harness: inspect bookkeeping mismatch");
     for (i, (cnt, e)) in b.inspects.iter().zip(&exp_ins).enumerate() {
-        ensure!(cnt.get() == *e, "inspect closure #{} was called {} times, expected {}", i, cnt.get(), e);
+        ensure!(cnt.get() == *e, "inspect / map closure #{} (pre-order) was called {} times, expected {} (once per frame that reached it)", i, cnt.get(), e);
     }
     Ok(())
 }
@@ -64,12 +64,12 @@ where
 fn expected_inspects(n: &Node, outer: u64, out: &mut Vec<u64>) {
     match n {
         Node::Leaf { .. } => {}
-        Node::Inspect(c) => {
+        Node::Inspect(c) | Node::Map(c) => {
             out.push(outer);
             expected_inspects(c, outer, out)
         }
         Node::Delay(c, d) => expected_inspects(c, outer.saturating_sub(*d as u64), out),
-        Node::Map(c) | Node::ScaleAmp(c, _) | Node::OffsetAmp(c, _) | Node::ScalePerCh(c, _) | Node::OffsetPerCh(c, _) | Node::ClipAmp(c, _) | Node::ByRef(c, _) | Node::AddAmp(c, _) | Node::MulAmp(c, _) => {
+        Node::ScaleAmp(c, _) | Node::OffsetAmp(c, _) | Node::ScalePerCh(c, _) | Node::OffsetPerCh(c, _) | Node::ClipAmp(c, _) | Node::ByRef(c, _) | Node::AddAmp(c, _) | Node::MulAmp(c, _) => {
             expected_inspects(c, outer, out)
         }
         Node::ZipMap(x, y) => {
